@@ -179,14 +179,14 @@ def fold_task(task, res):
             e.assume(rec['valid'].t)
         mark = Mark()
         mark.size = rec['size']
-        solver.get_matching_pairs = lambda m: mark
-        solver.is_valid = lambda pairs: rec['valid']
-        model._get_cost = lambda p: rec['cost']
-        model._get_cost_sq = lambda p: rec['sq']
-        model._get_degree = lambda p: rec['deg']
-        model._get_profile = lambda p: list(rec['prof'])
-        model._get_max_lec_abs_diff = lambda p: rec['md']
-        model._get_sum_lec_abs_diff = lambda p: rec['sd']
+        solver.get_matching_pairs = lambda *a, **k: mark
+        solver.is_valid = lambda *a, **k: rec['valid']
+        model._get_cost = lambda *a, **k: rec['cost']
+        model._get_cost_sq = lambda *a, **k: rec['sq']
+        model._get_degree = lambda *a, **k: rec['deg']
+        model._get_profile = lambda *a, **k: list(rec['prof'])
+        model._get_max_lec_abs_diff = lambda *a, **k: rec['md']
+        model._get_sum_lec_abs_diff = lambda *a, **k: rec['sd']
 
         def my_len(x):
             return rec['size'] if x is mark else builtins.len(x)
@@ -468,14 +468,14 @@ def fold_concrete(d):
     rec, pre = d['rec'], d['pre']
     mark = Mark()
     mark.size = rec['size']
-    solver.get_matching_pairs = lambda m: mark
-    solver.is_valid = lambda pairs: bool(rec['valid'])
-    model._get_cost = lambda p: tuple(rec['cost'])
-    model._get_cost_sq = lambda p: tuple(rec['sq'])
-    model._get_degree = lambda p: rec['deg']
-    model._get_profile = lambda p: list(rec['prof'])
-    model._get_max_lec_abs_diff = lambda p: rec['md']
-    model._get_sum_lec_abs_diff = lambda p: rec['sd']
+    solver.get_matching_pairs = lambda *a, **k: mark
+    solver.is_valid = lambda *a, **k: bool(rec['valid'])
+    model._get_cost = lambda *a, **k: tuple(rec['cost'])
+    model._get_cost_sq = lambda *a, **k: tuple(rec['sq'])
+    model._get_degree = lambda *a, **k: rec['deg']
+    model._get_profile = lambda *a, **k: list(rec['prof'])
+    model._get_max_lec_abs_diff = lambda *a, **k: rec['md']
+    model._get_sum_lec_abs_diff = lambda *a, **k: rec['sd']
 
     def my_product(*a, **k):
         if pre is not None:
